@@ -810,8 +810,9 @@ class ConstsFromSource(UperBase):
             f" (as coded: {coded})" if coded != ideal else "")
 
     def finding_class(self, req, ans):
+        """the recorded deviation, exactly as coded — any other difference from the source is none"""
         w = self.want.get(self.req_name(req))
-        if isinstance(w, tuple) and w[2]:
+        if isinstance(w, tuple) and w[2] and ans.startswith("ok ") and ans[3:] == w[1]:
             return w[2][0]
         return None
 
